@@ -73,6 +73,10 @@ package saml
 //@ ensures[C09] nil_iff_err: (result == nil) == (err != nil)
 //@ ensures[C02,C03,C04] valid: result != nil ==> assertionValid(sp, result, possibleRequestIDs, now)
 //@ ensures[C03] audience: result != nil && sp.ValidateAudienceRestriction == nil ==> audienceOK(sp, result)
+//@ requires[cfg] sentinel: errSignatureElementNotPresent != nil
+//@ requires[cfg] req: signatureRequirement == signatureRequired || signatureRequirement == signatureNotRequired
+//@ -- the element handed to the unmarshaller is the element whose signature was verified
+//@ ensures[C01] accepted: result != nil && sp.SignatureVerifier == nil ==> Accepted(sp, *result, signatureRequirement)
 
 //@ -- ------------------------------------------------------------------------------------------
 //@ -- C01: ghost vocabulary. Ghost predicates are uninterpreted; they become true only through assumed
@@ -168,3 +172,60 @@ package saml
 //@ trusted
 //@ requires[cfg] el: el != nil
 //@ ensures[C01] source: err == nil ==> valueReadFrom(v, el)
+
+//@ -- ------------------------------------------------------------------------------------------
+//@ -- the parse path
+
+//@ go func responseOK(sp *ServiceProvider, r Response, ids []string, now time.Time, hasSig bool, cur url.URL) bool {
+//@    return (!(hasSig || r.Destination != "") || r.Destination == cur.String() || r.Destination == sp.AcsURL.String()) &&
+//@      (sp.ValidateRequestID != nil || sp.AllowIDPInitiated || idMatches(ids, r.InResponseTo)) &&
+//@      issueFresh(r.IssueInstant, now) &&
+//@      (r.Issuer == nil || r.Issuer.Value == sp.IDPMetadata.EntityID) &&
+//@      r.Status.StatusCode.Value == StatusSuccess }
+//@ go func isInvalidResponseError(err error) bool { _, ok := err.(*InvalidResponseError); return ok }
+
+//@ contract (*ServiceProvider).decryptElement
+//@ requires[cfg] el: encryptedEl != nil
+//@ -- decrypted plaintext is parsed only after the round-trip validator accepted exactly those bytes
+//@ assert@call[C01,C08] ReadFromBytes #1 (doc *etree.Document, b []byte) plaintext_validated: RoundTripSafe(b)
+//@ ensures[C09] nonnil: err == nil ==> result != nil
+
+//@ contract (*ServiceProvider).parseEncryptedAssertion
+//@ requires[cfg] el: encryptedAssertionEl != nil
+//@ requires[cfg] md: sp.IDPMetadata != nil
+//@ requires[cfg] sentinel: errSignatureElementNotPresent != nil
+//@ requires[cfg] req: signatureRequirement == signatureRequired || signatureRequirement == signatureNotRequired
+//@ ensures[C09] nil_iff_err: (result == nil) == (err != nil)
+//@ ensures[C02,C03,C04,C08] valid: result != nil ==> assertionValid(sp, result, possibleRequestIDs, now)
+//@ ensures[C03,C08] audience: result != nil && sp.ValidateAudienceRestriction == nil ==> audienceOK(sp, result)
+//@ -- the decrypted assertion is held to the same signature requirement as a plaintext one
+//@ ensures[C01,C08] accepted: result != nil && sp.SignatureVerifier == nil ==> Accepted(sp, *result, signatureRequirement)
+
+//@ contract (*ServiceProvider).parseResponse
+//@ requires[cfg] el: responseEl != nil
+//@ requires[cfg] md: sp.IDPMetadata != nil
+//@ requires[cfg] sentinel: errSignatureElementNotPresent != nil
+//@ requires[cfg] req: signatureRequirement == signatureRequired || signatureRequirement == signatureNotRequired
+//@ ensures[C09] nil_iff_err: (result == nil) == (err != nil)
+//@ ensures[C02,C03,C04] valid: result != nil ==> assertionValid(sp, result, possibleRequestIDs, now)
+//@ ensures[C03] audience: result != nil && sp.ValidateAudienceRestriction == nil ==> audienceOK(sp, result)
+//@ -- C01: the returned assertion was read from an element that carries its own verified signature, unless the
+//@ -- enclosing element's signature was verified (here: the Response; or by the caller when it passes signatureNotRequired)
+//@ ensures[C01] covered: result != nil && sp.SignatureVerifier == nil ==>
+//@    Accepted(sp, *result, signatureRequired) ||
+//@    (Accepted(sp, *result, signatureNotRequired) && (signatureRequirement == signatureNotRequired || SigOK(sp, responseEl)))
+//@ -- response-level conditions hold at the point where assertions start to be collected
+//@ assert@call[C02,C03,C04] findChildren #1 uses response Response, responseHasSignature bool response_checked:
+//@    responseOK(sp, response, possibleRequestIDs, now, responseHasSignature, currentURL)
+//@ assert@call[C03] findChildren #1 uses responseHasSignature bool, responseSignatureErr error signed_means_destination:
+//@    signatureRequirement == signatureRequired ==> responseHasSignature == (responseSignatureErr != errSignatureElementNotPresent)
+//@ loop 1 vars assertions []Assertion, req=signatureRequirement signatureRequirement, errs []error
+//@ invariant[C09] enc_errs: forall(0, len(errs), func(k int) bool { return errs[k] != nil })
+//@ invariant[C02,C03,C04] enc_valid: forall(0, len(assertions), func(k int) bool { return assertionValid(sp, &assertions[k], possibleRequestIDs, now) })
+//@ invariant[C03] enc_aud: sp.ValidateAudienceRestriction == nil ==> forall(0, len(assertions), func(k int) bool { return audienceOK(sp, &assertions[k]) })
+//@ invariant[C01] enc_acc: sp.SignatureVerifier == nil ==> forall(0, len(assertions), func(k int) bool { return Accepted(sp, assertions[k], req) })
+//@ loop 2 vars assertions []Assertion, req=signatureRequirement signatureRequirement, errs []error
+//@ invariant[C09] errs_nonnil: forall(0, len(errs), func(k int) bool { return errs[k] != nil })
+//@ invariant[C02,C03,C04] valid: forall(0, len(assertions), func(k int) bool { return assertionValid(sp, &assertions[k], possibleRequestIDs, now) })
+//@ invariant[C03] aud: sp.ValidateAudienceRestriction == nil ==> forall(0, len(assertions), func(k int) bool { return audienceOK(sp, &assertions[k]) })
+//@ invariant[C01] acc: sp.SignatureVerifier == nil ==> forall(0, len(assertions), func(k int) bool { return Accepted(sp, assertions[k], req) })
